@@ -903,7 +903,9 @@ def naming_case(d, at=0, limit=400):
             try:
                 a = np.asarray(v)
                 desc = {"shape": [int(x) for x in a.shape], "chunks": [], "dtype": str(a.dtype) if a.dtype != object else "object",
-                        "fp": graphs.fingerprint(v)}
+                        # inexact blocks: equal up to the quantization of spec_value (the raw and the optimized graph may
+                        # evaluate one named block along different floating-point paths); everything else bit-exact
+                        "fp": fpq(a) if a.dtype.kind in "fc" and a.size <= 4096 else graphs.fingerprint(v)}
             except Exception:
                 continue
             new += _register("key", repr(key), desc, events, limit)
